@@ -16,7 +16,7 @@ func init() {
 
 type gfid struct {
 	dir, opened, auth bool
-	omode          int
+	omode             int
 }
 
 // histGen tracks a rough picture of the fid table so that most requests are legal.
@@ -284,14 +284,14 @@ func genC04(c *Ctx) { withOracle(c, (*oracleState).c04, genSeq) }
 
 func genSeq(c *Ctx) {
 	i := 0
-	for k := 0; k < c.scale(2500, 60000); k++ {
+	for k := 0; k < c.scale(2500, 60000) && !c.stop(); k++ {
 		i++
 		r := c.rng(i)
 		n := []int{1, 2, 3, 4, 6, 10, 25}[r.Intn(7)]
 		c.count(fmt.Sprintf("history-len:%d", n))
 		c.runSeq(genHistory(r, n))
 	}
-	for k := 0; k < c.scale(20, 400); k++ {
+	for k := 0; k < c.scale(20, 400) && !c.stop(); k++ {
 		i++
 		r := c.rng(i)
 		c.count("history-len:long")
